@@ -13,6 +13,7 @@ import random
 
 from common import Result, driver_batch, hexs, load_corpus, use_repo
 import framegen as fg
+import producer
 import reader
 import vloop
 
@@ -158,6 +159,7 @@ def run(ctx):
     streams = [nz + (fr * copies if fr else b"") for _, nz, fr, copies in cases]
     answers = driver_batch("read " + hexs(s) for s in streams)
     prod_budget = 120 if quick else 3000
+    prod_cases = []
     for ci, ((label, nz, fr, copies), s, ans) in enumerate(zip(cases, streams, answers)):
         model = reader.canon_model(reader.parse_model(ans))
         res.case(s, 0x68 in nz)
@@ -205,15 +207,27 @@ def run(ctx):
                          dict(alive=True, connected=True, delivered=want), dict(alive=alive, connected=connected, delivered=got),
                          "the connection's producer loop stopped, or frames after the noise did not reach the read queue")
             res.count("producer_runs")
+            # the same stream through the producer machine (Model/Producer.lean, theorems in Props/C09Producer.lean):
+            # fed one read() call at a time, with a write-fault script, followed by end of stream or silence
+            if len(s) <= 2500:
+                prod_cases.append(dict(stream=s.hex(), mode=rng.choice("es"), label=label,
+                                       script=producer.rand_script(rng, min(s.count(b"\x68") + 1, 40), faulty=rng.random() < 0.5)))
         if len(res.samples) < 4 and label.split(":")[0] in ("run", "noise") and 0x68 in nz and not any(x["label"].split(":")[0] == label.split(":")[0] for x in res.samples):
             res.sample(dict(label=label, noise=nz.hex()[:200], frame=fr.hex() if fr else None, copies=copies,
                             outcomes=[list(o) for o in impl0[:8]]))
+    producer.evaluate(res, [dict(c) for c in producer.CORPUS] + prod_cases, "C14")
     return res
 
 
 def replay(ctx):
     f = ctx["replay"].get("failure") or ctx["replay"].get("first_difference")
     i = f["input"]
+    if i.get("via") == "producer" and "script" in i:
+        res = Result("C14")
+        res.rule = "replay of one recorded producer run"
+        producer.replay_case(res, i, "C14")
+        res.case(i["stream"])
+        return res
     nz = bytes.fromhex(i["noise"])
     fr = bytes.fromhex(i["frame"]) if i.get("frame") else None
     s = nz + (fr * i.get("copies", 0) if fr else b"")
